@@ -42,7 +42,7 @@ def callN (fn : Node) (args : List Node) (ty ty0 : String) : Node := .mk { kind 
 helpers) and `v` (the bound variable's name) are arbitrary -/
 def renderItem (x r : Node) (v : String) : Item → Node
   | .bind ty true => callN (selN x "Bind") [.mk { kind := .addr, ty := "*" ++ ty, elem := ty } [identN v ty]] "error" ""
-  | .bind ty false => callN (selN x "Bind") [identN v ty] "error" ""
+  | .bind ty false => callN (selN x "Bind") [.mk { kind := .ident, name := v, ty := "*" ++ ty, elem := ty } []] "error" ""
   | .query n => callN (selN x "QueryParam") [strLit n] "string" ""
   | .queryBool n => callN (selN r "QueryParamBool") [x, strLit n] "bool" ""
   | .queryInt64 n => callN (selN r "QueryParamInt64") [x, strLit n] "int64" ""
